@@ -198,7 +198,7 @@ for a in ["F", "B", "N", "S", "D"]:
     add(f"c06_list1_index_{kn(a)}", "C06", "quick" if a in "FBN" else "thorough", uw(a), f"crate::c06::list1_index_kind::<{kt(a)}>()",
         {"list": "[x] with x any int", "index": K[a][2]}, funcs=["CelValue::index"], cap=600)
 add("c06_list_in", "C06", "quick", 4, "crate::c06::list_in()", {"needle": "all i64", "list": "[x] with x any int, and []"}, need=["member", "not a member"], funcs=["CelValue::in_"], cap=600)
-add("c06_list_size", "C06", "quick", 4, "crate::c06::list_size()", {"list": "[x] and []"}, funcs=["size::dispatch"], cap=600)
+add("c06_list_size", "C06", "thorough", 4, "crate::c06::list_size()", {"list": "[x] and []"}, funcs=["size::dispatch"], cap=600)
 
 # ---------------------------------------------------------------- C10
 add("c10_jump_target", "C10", "quick", 3, "crate::c10::jump_target()",
@@ -347,7 +347,11 @@ for a in SCALARS:
     for b in SCALARS:
         quick = (a in "IUFB" and b in "IUFB") or (a in "DT" and b in "DT")
         add(f"c01_binops_{kn(a)}_{kn(b)}", "C01", "quick" if quick else "thorough", uw(a, b),
-            f"crate::c01::binops::<{kt(a)}, {kt(b)}>()", dom(a, b), need=["all binary operators returned"], cap=900,
+            f"crate::c01::binops::<{kt(a)}, {kt(b)}>()", dom(a, b), need=["all binary operators returned"],
+            # a timestamp on the right with the full range of instants does not finish (B3): these two pairs are
+            # bug hunting only - they report a counterexample quickly when there is one and are
+            # inconclusive otherwise, so they get the short cap
+            cap=300 if (a, b) in (("D", "T"), ("T", "T")) else 900,
             funcs=["<CelValue as Add/Sub/Mul/Div/Rem>", "CelValue::lt/le/gt/ge/neq/or/and/in_/index", "<CelValue as CelValueDyn>::eq"])
     add(f"c01_unops_{kn(a)}", "C01", "quick" if a in "IUFBNE" else "thorough", uw(a),
         f"crate::c01::unops::<{kt(a)}>()", dom(a), need=["all unary operators returned"],
